@@ -59,7 +59,7 @@
 
   Fuel: every iteration of `go` removes at least 16 bits from the unread bits
   (`w + 32·|ws|`), so `32·|ws| + 1` iterations always suffice
-  (`Lemmas.Expand.expandFile_ne_fuel`).
+  (`Props.C06.File.expandFile_ne_fuel`, from `Lemmas.ExpandMain.complete_main`).
 -/
 import LbzVerif.Gen.Consts
 import LbzVerif.Gen.Parse
@@ -85,7 +85,7 @@ inductive Err
   /-- model-only statuses of the parts (`ub` 1000, `overread` 1001, `assertFail` 1002 of
       Model.Retrieve; 1003: `emit()` aborted or did not finish in the 2^32 − 2 byte buffer) -/
   | model (code : Nat)
-  /-- the fuel of `go` ran out (impossible: `expandFile_ne_fuel`) -/
+  /-- the fuel of `go` ran out (impossible: `Props.C06.File.expandFile_ne_fuel`) -/
   | fuel
   deriving DecidableEq, Repr, Inhabited
 
